@@ -202,8 +202,10 @@ def run_c12(tier):
                 shutil.rmtree(ed, ignore_errors=True)
             shutil.rmtree(d, ignore_errors=True)
         # reserved identifiers (known finding D40)
-        for word in chk.scale(RESERVED[:4], RESERVED):
-            text = 'struct %s { u8 a; };\n' % word if word == 'E' else 'struct Rsv { u8 %s; };\n' % word
+        for word in chk.scale(RESERVED[:4] + ['has_x'], RESERVED + ['has_x']):
+            text = ('struct %s { u8 a; };\n' % word if word == 'E' else
+                    'struct Rsv { u8* x; u32 has_x; };\n' if word == 'has_x' else          # collides with the generated flag member
+                    'struct Rsv { u8 %s; };\n' % word)
             d = os.path.join(root, 'r' + word)
             outcome, msg = compile_all(text, d)
             rcase = {'schema': text, 'rule': 'identifier reserved in a target language'}
